@@ -26,7 +26,7 @@ EXTENDS Integers, Sequences, FiniteSets, TLC
 
 RECURSIVE Anc(_, _)
 \* proper ancestors of node i, including the document node 0
-Anc(D, i) == IF i = 0 THEN {} ELSE {D.par[i]} \cup Anc(D, D.par[i])
+Anc(D, i) == IF i <= 0 THEN {} ELSE {D.par[i]} \cup Anc(D, D.par[i])      \* par = -1: detached (Stream!PartialDoc)
 Sub(D, i) == {j \in 1..D.n : j = i \/ i \in Anc(D, j)}          \* subtree of i
 KidsOf(D, i) == SelectSeq([j \in 1..D.n |-> j], LAMBDA j: D.par[j] = i)
 
@@ -48,6 +48,7 @@ SelSteps(D, P, steps, k, ctx) ==
   ELSE LET s == steps[k]
            nxt == {c \in P : /\ NameOK(D, c, s.test)
                              /\ IF s.axis = "child" THEN D.par[c] \in ctx
+                                ELSE IF s.axis = "parent" THEN \E q \in ctx : q > 0 /\ D.par[q] = c       \* `..` / `../n`
                                 ELSE \* antchfx/xpath v1.1.11 evaluates `x//n` as descendant-or-self::n of x
                                      \* (probed on the engine: /a//a selects the outer a as well)
                                      c \in ctx \/ (Anc(D, c) \cap ctx) # {}}
